@@ -297,8 +297,10 @@ theorem loadContainer_sim (a b : Store) (h : a.sim b) :
       · simp [h1, h2]
       · by_cases h3 : (decHdr hb).dtotal < 0
         · simp [h1, h2, h3]
-        · simp only [h1, h2, h3, Bool.false_eq_true, ↓reduceIte]
-          cases readDescriptors b.buf (decHdr hb).doff (decHdr hb).dsize (decHdr hb).dtotal.toNat 0 [] <;> rfl
+        · by_cases h4 : (decHdr hb).doff < 0
+          · simp [h1, h2, h3, h4]
+          · simp only [h1, h2, h3, h4, Bool.false_eq_true, ↓reduceIte]
+            cases readDescriptors b.buf (decHdr hb).doff (decHdr hb).dsize (decHdr hb).dtotal.toNat 0 [] <;> rfl
 
 theorem loadContainer_st (st : Store) (y : Img) (h : loadContainer st = .ok y) : y.st = st := by
   unfold loadContainer at h
@@ -312,10 +314,12 @@ theorem loadContainer_st (st : Store) (y : Img) (h : loadContainer st = .ok y) :
       · simp [h1, h2] at h
       · by_cases h3 : (decHdr hb).dtotal < 0
         · simp [h1, h2, h3] at h
-        · simp only [h1, h2, h3, Bool.false_eq_true, ↓reduceIte] at h
-          cases hr : readDescriptors st.buf (decHdr hb).doff (decHdr hb).dsize (decHdr hb).dtotal.toNat 0 [] with
-          | error e => simp [hr] at h
-          | ok rds => simp only [hr, Except.ok.injEq] at h; rw [← h]
+        · by_cases h4 : (decHdr hb).doff < 0
+          · simp [h1, h2, h3, h4] at h
+          · simp only [h1, h2, h3, h4, Bool.false_eq_true, ↓reduceIte] at h
+            cases hr : readDescriptors st.buf (decHdr hb).doff (decHdr hb).dsize (decHdr hb).dtotal.toNat 0 [] with
+            | error e => simp [hr] at h
+            | ok rds => simp only [hr, Except.ok.injEq] at h; rw [← h]
 
 /-- **lock-step**: one operation on the same handle state held in a `sif.Buffer` and in a file
     returns the same result and leaves the same handle state and the same bytes -/
